@@ -44,9 +44,10 @@ VARIABLES g, inp, opt,          \* grammar index, input bytes, options [v, ws, n
           status,               \* "run" | "acc" | "rej" | "undef" (R/R cell reached: behaviour undefined)
           msgs,                 \* messages written in non-verbose mode, in order
           red,                  \* rule being reduced between the Reduce, Goto and Call steps (-1 otherwise)
+          mxd,                   \* ghost: greatest stack length reached so far (capacity analysis, C12)
           ev                    \* event emitted by the last step
 
-dvars == <<g, inp, opt, stack, sstack, vals, nodes, it, endIt, cur, line, col, mode, ph, status, msgs, red, ev>>
+dvars == <<g, inp, opt, stack, sstack, vals, nodes, it, endIt, cur, line, col, mode, ph, status, msgs, red, mxd, ev>>
 
 TB == 100
 EofOf(gg) == TB + GR(gg).nt
@@ -69,7 +70,7 @@ Init0(gg, bytes, o) ==
   /\ g = gg /\ inp = bytes /\ opt = o
   /\ stack = <<0>> /\ sstack = <<0>> /\ vals = <<>> /\ nodes = <<>>
   /\ it = 0 /\ endIt = 0 /\ cur = -1 /\ line = 1 /\ col = 1
-  /\ mode = "normal" /\ ph = "top" /\ status = "run" /\ msgs = <<>> /\ red = -1 /\ ev = <<"tau">>
+  /\ mode = "normal" /\ ph = "top" /\ status = "run" /\ msgs = <<>> /\ red = -1 /\ mxd = 1 /\ ev = <<"tau">>
 
 NeedTerm == ph = "top" /\ mode # "recovery" /\ it = endIt
 HaveTerm == ph = "act" \/ (ph = "top" /\ (mode = "recovery" \/ it # endIt))
@@ -238,8 +239,9 @@ Undefined ==             \* R/R cell: the readme declares the behaviour undefine
   /\ status' = "undef" /\ ev' = <<"tau">> /\ ph' = "top"
   /\ UNCHANGED <<red, g, inp, opt, stack, sstack, vals, nodes, it, endIt, cur, line, col, mode, msgs>>
 
-DNext == GetTerm \/ ConsumeFailEof \/ ConsumeDiscard \/ SynErr \/ EnterRecovery \/ RecoverPop \/ LeaveConsume
+DStep == GetTerm \/ ConsumeFailEof \/ ConsumeDiscard \/ SynErr \/ EnterRecovery \/ RecoverPop \/ LeaveConsume
          \/ Shift \/ TermValue \/ ShiftError \/ LeaveRecovery \/ EnterConsume \/ Reduce \/ Goto \/ Call \/ Accept \/ Undefined
+DNext == DStep /\ mxd' = IF Len(stack') > mxd THEN Len(stack') ELSE mxd
 
 (************************* invariants of every driver state ***************)
 StacksInSync == /\ Len(stack) = Len(sstack)
